@@ -369,7 +369,7 @@ def run_c01(ck):
                 cl = case_line(info["dir"], info["case"])
                 if cl is None:
                     continue
-                score = (info["step"], len(cl))
+                score = (info["stream"] != "corpus", int(cl.split()[2]), info["step"], len(cl))
                 if best is None or score < best[0]:
                     best = (score, info, cl)
             if best is None:
